@@ -76,7 +76,7 @@ func (l *loopInfo) invariant(v ssa.Value) bool {
 		return l.invariant(x.X) && l.invariant(x.Y)
 	case *ssa.Call:
 		if calleeName(&x.Call) == "builtin:len" {
-			return l.invariant(x.Call.Args[0])
+			return l.invariant(argsOf(x)[0])
 		}
 		// pure size queries on a loop-invariant receiver (contract)
 		switch calleeName(&x.Call) {
@@ -84,7 +84,7 @@ func (l *loopInfo) invariant(v ssa.Value) bool {
 			if x.Call.IsInvoke() {
 				return l.invariant(x.Call.Value)
 			}
-			return len(x.Call.Args) == 1 && l.invariant(x.Call.Args[0])
+			return len(argsOf(x)) == 1 && l.invariant(argsOf(x)[0])
 		}
 	case *ssa.UnOp:
 		// load of a field of an invariant object that the loop does not store to: accept
